@@ -226,7 +226,11 @@ class PrettyPrinter:
             if self.__is_metadata(k):
                 continue
             self.__check_pair_value(k, v)
-            cfg_val = self.quoter.add_quotes(k.upper())
+            cfg_key = k.upper()
+            if cfg_key.lower() != k.lower():
+                # upper-casing is not reversible for every letter (e.g. "ß" becomes "SS"), keep such a key as it is
+                cfg_key = k
+            cfg_val = self.quoter.add_quotes(cfg_key)
             k = f"CONFIG {cfg_val}"
             v = self.quoter.add_quotes(v)
             lines.append(self.__format_line(self.whitespace(level, 1), k, v))
